@@ -266,6 +266,16 @@ def value_to_py(cinco, v, schema_for_cfgobj=None, root=None):
     return codec.to_py(v, root)
 
 
+def schema_field(cinco, schema, keys):
+    """The field at a key path of a schema, walking through config type fields as well."""
+    cur = schema
+    for k in keys:
+        if isinstance(cur, cinco.core.ConfigTypeField):
+            cur = cur.config_type.__schema__
+        cur = dict(cinco.get_fields(cur))[k]
+    return cur
+
+
 def nested_ids(cinco, cfg, path=()):
     """{path: id(config object)} for the configuration and every nested configuration."""
     out = {path: id(cfg)}
@@ -332,8 +342,7 @@ class World:
                 p, k = seq(ev["p"]), ev["k"]
                 factory = None
                 if ev["v"]["t"] == "cfgobj":
-                    field = self.schema[".".join(list(p) + [k])]
-                    factory = field
+                    factory = schema_field(cinco, self.schema, list(p) + [k])
                 val = value_to_py(cinco, ev["v"], factory, self.root)
                 if op == "SetAttr":
                     setattr(self._walk(cfg, p), k, val)
